@@ -407,8 +407,14 @@ class _PartialEvalInstance(DefaultVisitor):
                 return
 
     def _visit_while(self, stmt: WhileStmt, ctx: Context | None):
-        self._visit_expr(stmt.cond, ctx)
-        self._loop_fixpoint(stmt, lambda: self._visit_block(stmt.body, ctx))
+        def run_pass():
+            # the condition reads the loop's phis, so it is read again with
+            # them on every pass (read once ahead of the fixpoint it would see
+            # whatever an enclosing loop's previous pass left in them)
+            self._visit_expr(stmt.cond, ctx)
+            self._visit_block(stmt.body, ctx)
+
+        self._loop_fixpoint(stmt, run_pass)
 
     def _visit_for(self, stmt: ForStmt, ctx: Context | None):
         self._visit_expr(stmt.iterable, ctx)
